@@ -245,7 +245,7 @@ class Expected:
            ('ref', kind, value)              a reference argument alone in its slot (any index that resolves to value)
            ('tuple', [wire types], [member]) the 15th and later arguments, member = ('bytes', b) | ('ref', kind, value)
        txns = the transaction arguments in order (dicts with 'type')."""
-    __slots__ = ("sig", "selector", "slots", "txns")
+    __slots__ = ("sig", "selector", "slots", "txns", "txn_types")
 
 
 def expect_call(name, arg_types, ret, args):
@@ -255,6 +255,7 @@ def expect_call(name, arg_types, ret, args):
     e.sig = signature(name, arg_types, ret)
     e.selector = selector(e.sig)
     e.txns = []
+    e.txn_types = []    # the declared type string of every transaction argument
     members = []        # (wire type string, member)
     for ts, a in zip(arg_types, args):
         k = kind_of(ts)
@@ -263,6 +264,7 @@ def expect_call(name, arg_types, ret, args):
             if want is not None and a["type"] != want:
                 raise EncodeError("transaction of type %r where %s is expected" % (a["type"], ts))
             e.txns.append(a)
+            e.txn_types.append(ts)
         elif k == "ref":
             members.append(("uint8", ("ref", ts, a)))
         else:
@@ -325,4 +327,12 @@ def check_call(e, app_args, accounts, assets, apps, txns, sender, callee):
     for i, (want, got_t) in enumerate(zip(e.txns, txns)):
         if want["fields"] != got_t:
             bad.append("transaction argument %d: recorded %r, passed %r" % (i, got_t, want["fields"]))
+        # the transaction actually in the group must be of the type the SIGNATURE declares (last TypeEnum set wins)
+        declared = TXN_TYPES[e.txn_types[i]]
+        te = [v for n, v in got_t if n == "TypeEnum"]
+        if declared is not None and (not te or te[-1] != declared):
+            bad.append("transaction argument %d: the recorded transaction has TypeEnum %r, the signature declares %s (= %d)" % (
+                i, te[-1] if te else None, e.txn_types[i], declared))
+        if declared is None and not te:
+            bad.append("transaction argument %d: the recorded transaction has no TypeEnum" % i)
     return bad
